@@ -2,7 +2,7 @@
 From Coq Require Import List Arith ZArith NArith Bool Sorted Permutation.
 From Coq.Strings Require Import Byte.
 Import ListNotations.
-From SV Require Import Text C09_Model C09_Lemmas C09_Extract C09_Record C09_Box C09_Unterm C09_Scan C09_Parse C09_Get C09_GetAll C09_Header C09_Read C09_Store C09_Sort C09_Layout C09_Hist C09_Agree.
+From SV Require Import Text C09_Model C09_Lemmas C09_Extract C09_Record C09_Box C09_Unterm C09_Scan C09_Parse C09_Get C09_GetAll C09_Header C09_Read C09_Store C09_Sort C09_Layout C09_Hist C09_Agree C09_Iter.
 
 (* P0 (DESIGN appendix A): for every line width, newline sequence and residue string, stripping the newline bytes from the bytes
    [off i, off j) of the wrapped text, off x = x + (x / w) * |nl| (fastaindex.py:118,132), gives s[i:j] *)
@@ -543,3 +543,29 @@ Theorem C09_hist_len : forall hs path (env : list (str * gfile)),
     /\ (forall e, In e Lb <-> In e Ld) /\ (NoDup Lb -> length Lb = length Ld).
 Proof. exact hist_len. Qed.
 Print Assumptions C09_hist_len.
+
+(* ---------------------------------------------------------------------- iter results *)
+
+(* FastaIndex.iter / iter_fasta / iter_fastaheader (and get / get_fasta / get_fastaheader built on them) with a list of plain
+   ids and (id, i, j) triples: for every list that is not the three-item list with a triple in the middle, the call yields the
+   answers of the single queries in order when all succeed, and otherwise ends with the exception of the first failing item
+   (what each single answer is: C09_hist_get_sound) *)
+Theorem C09_iter_spec : forall mode hs env s api items, quirk items = false ->
+  let single it := snd (step mode hs env s (OGet (item_query api it))) in
+  (forallb (fun it => negb (is_err (single it))) items = true -> iter_answers mode hs env s api items = VL (map single items))
+  /\ (forall pre it post k, items = pre ++ it :: post -> forallb (fun x => negb (is_err (single x))) pre = true ->
+        single it = VE k -> iter_answers mode hs env s api items = VE k).
+Proof. exact iter_spec. Qed.
+Print Assumptions C09_iter_spec.
+
+(* ... and a list of exactly three items with a triple in the middle is taken by _search for ONE (id, start, stop) query whose
+   start is a tuple (fastaindex.py:279-281): after the lookup of the first id the header-only form answers with that header
+   line alone, the other forms end in TypeError *)
+Theorem C09_iter_quirk : forall mode hs env s api a id i j c,
+  iter_answers mode hs env s api [QId a; QTriple id i j; c]
+  = match snd (step mode hs env s (OGet (Query api a None))) with
+    | VE k => VE k
+    | v => if N.eqb api 2 then VL [v] else VE (bs "TypeError"%bs)
+    end.
+Proof. exact iter_quirk. Qed.
+Print Assumptions C09_iter_quirk.
